@@ -428,7 +428,9 @@ func (r *runner) handleInterrupt(
 		Inputs:         make(map[string]any),
 		SkipPreHandler: map[string]bool{},
 	}
-	if state, ok := ctx.Value(stateKey{}).(*internalState); ok {
+	// only a graph that declares state owns one: a state inherited from an enclosing graph is saved
+	// and restored there, a copy in the nested checkpoint would detach the nested graph from it
+	if state, ok := ctx.Value(stateKey{}).(*internalState); ok && r.runCtx != nil {
 		cp.State = state.state
 	}
 	intInfo := &InterruptInfo{
@@ -508,7 +510,9 @@ func (r *runner) handleInterruptWithSubGraphAndRerunNodes(
 		SkipPreHandler: skipPreHandler,
 		SubGraphs:      make(map[string]*checkpoint),
 	}
-	if state, ok := ctx.Value(stateKey{}).(*internalState); ok {
+	// only a graph that declares state owns one: a state inherited from an enclosing graph is saved
+	// and restored there, a copy in the nested checkpoint would detach the nested graph from it
+	if state, ok := ctx.Value(stateKey{}).(*internalState); ok && r.runCtx != nil {
 		cp.State = state.state
 	}
 	intInfo := &InterruptInfo{
